@@ -22,17 +22,17 @@ const (
 )
 
 type lobj struct {
-	kind   int
-	name   string
-	v      cty.Value
-	t      cty.Type
-	s      cty.ValueSet
-	pool   []cty.Value // candidate members (sets)
-	pub    string
-	hook   string
-	via    string // operation that created it
-	from   []string
-	anc    map[string]bool // names of this object and of everything it was derived from, transitively
+	kind int
+	name string
+	v    cty.Value
+	t    cty.Type
+	s    cty.ValueSet
+	pool []cty.Value // candidate members (sets)
+	pub  string
+	hook string
+	via  string // operation that created it
+	from []string
+	anc  map[string]bool // names of this object and of everything it was derived from, transitively
 }
 
 func (o *lobj) fps() (string, string) {
@@ -74,7 +74,7 @@ func (h *history) add(o *lobj) *lobj {
 	o.anc = map[string]bool{o.name: true}
 	for _, f := range o.from {
 		for _, q := range h.live {
-			if q.name == f && q.kind == kSet {
+			if q.name == f {
 				for a := range q.anc {
 					o.anc[a] = true
 				}
@@ -198,7 +198,9 @@ func (h *history) pickSameType(a *lobj) *lobj {
 func runHistory(c *core.Ctx, idx int64, r *core.Rand) {
 	h := &history{c: c, r: r}
 	nSteps := 40 + r.Intn(161)
-	c.Begin(idx, func() string { return fmt.Sprintf("history #%d (%d steps; regenerate with the same seed / batch / case)", idx, nSteps) })
+	c.Begin(idx, func() string {
+		return fmt.Sprintf("history #%d (%d steps; regenerate with the same seed / batch / case)", idx, nSteps)
+	})
 	// initial live set
 	for i := 0; i < 10; i++ {
 		v := genValue(r)
